@@ -6,23 +6,65 @@ Import ListNotations.
 Require Import Nib.C03.Model Nib.C03.Ref Nib.C03.Spec Nib.C03.ProofsBase Nib.C03.ProofsUndo.
 Local Open Scope Z_scope.
 
-(** [s'] extends the journal of [s]; reverting the new entries restores the view of [s] *)
+(** number of entries whose [Dirtied] is [a] *)
+Fixpoint count_dirty (a : addr) (j : list entry) : Z :=
+  match j with
+  | [] => 0
+  | e :: rest => (match dirtied e with Some b => if b =? a then 1 else 0 | None => 0 end) + count_dirty a rest
+  end.
+
+Lemma count_dirty_nonneg a j : 0 <= count_dirty a j.
+Proof. induction j as [|e j IH]; simpl; [lia|]. destruct (dirtied e) as [b|]; [destruct (b =? a)|]; lia. Qed.
+Lemma count_dirty_app a j1 j2 : count_dirty a (j1 ++ j2) = count_dirty a j1 + count_dirty a j2.
+Proof. induction j1 as [|e j1 IH]; simpl; [reflexivity|]. rewrite IH. lia. Qed.
+
+(** accounts none of the new entries is charged to look as before *)
+Definition same_at (v v' : view) (b : addr) : Prop :=
+  v_acct v' b = v_acct v b /\ forall k, v_stor v' b k = v_stor v b k.
+Definition frame (new : list entry) (v v' : view) : Prop :=
+  forall b, count_dirty b new = 0 -> same_at v v' b.
+
+Lemma same_at_veq v v' b : veq v' v -> same_at v v' b.
+Proof. intros []. split; auto. Qed.
+Lemma same_at_trans v1 v2 v3 b : same_at v1 v2 b -> same_at v2 v3 b -> same_at v1 v3 b.
+Proof. intros [A1 B1] [A2 B2]. split; [congruence|]. intro k. rewrite B2. apply B1. Qed.
+
+(** [s'] extends the journal of [s]; reverting the new entries restores the view of [s];
+    only accounts charged in [Journal.dirties] changed *)
 Definition ok (s s' : sdb) : Prop :=
   kp s' = kp s /\
-  exists new, journal s' = new ++ journal s /\ veq (vunwind (kp s) new (V s')) (V s).
+  exists new, journal s' = new ++ journal s /\ veq (vunwind (kp s) new (V s')) (V s) /\
+              frame new (V s) (V s').
 
 Lemma ok_same s s' : kp s' = kp s -> journal s' = journal s -> veq (V s') (V s) -> ok s s'.
-Proof. intros K J H. split; [exact K|]. exists []. split; [exact J|exact H]. Qed.
+Proof.
+  intros K J H. split; [exact K|]. exists []. split; [exact J|]. split; [exact H|].
+  intros b _. apply same_at_veq, H.
+Qed.
 
 Lemma ok_refl s : ok s s.
 Proof. apply ok_same; auto using veq_refl. Qed.
 
 Lemma ok_trans s1 s2 s3 : ok s1 s2 -> ok s2 s3 -> ok s1 s3.
 Proof.
-  intros (K1 & n1 & J1 & H1) (K2 & n2 & J2 & H2). split; [congruence|].
-  exists (n2 ++ n1). split; [rewrite J2, J1, app_assoc; reflexivity|].
-  rewrite vunwind_app. rewrite K1 in H2.
-  eapply veq_trans; [apply vunwind_veq, H2|exact H1].
+  intros (K1 & n1 & J1 & H1 & F1) (K2 & n2 & J2 & H2 & F2). split; [congruence|].
+  exists (n2 ++ n1). split; [rewrite J2, J1, app_assoc; reflexivity|]. split.
+  - rewrite vunwind_app. rewrite K1 in H2.
+    eapply veq_trans; [apply vunwind_veq, H2|exact H1].
+  - intros b Hb. rewrite count_dirty_app in Hb.
+    pose proof (count_dirty_nonneg b n1). pose proof (count_dirty_nonneg b n2).
+    eapply same_at_trans; [apply F1; lia|apply F2; lia].
+Qed.
+
+(** a change confined to [a] by entries charged to [a] *)
+Lemma frame_one new v v' a :
+  0 < count_dirty a new -> (forall b, b <> a -> same_at v v' b) -> frame new v v'.
+Proof. intros Hc H b Hb. apply H. intros ->. lia. Qed.
+
+Lemma same_at_vput kp0 v v' a o b : veq v' (vput kp0 v a o) -> b <> a -> same_at v v' b.
+Proof.
+  intros [] Hne. split; [rewrite eq_acct|intro k; rewrite eq_stor]; simpl; unfold upd;
+    destruct (Z.eqb_spec b a); try contradiction; reflexivity.
 Qed.
 
 Lemma ok_loaded s a : ok s (snd (get_obj s a)).
@@ -77,7 +119,10 @@ Proof.
     { eapply veq_trans; [apply V_set_obj|]. rewrite kp_push. apply vput_veq, V_push. }
     split; [exact HV|].
     split; [apply kp_push|]. exists [ECreate a]. split; [rewrite journal_set_obj, journal_push; reflexivity|].
-    cbn [vunwind fold_left vundo]. eapply veq_trans; [apply vdrop_veq, HV|]. apply vdrop_vput_none, Hl.
+    split.
+    + cbn [vunwind fold_left vundo]. eapply veq_trans; [apply vdrop_veq, HV|]. apply vdrop_vput_none, Hl.
+    + apply (frame_one _ _ _ a); [simpl; rewrite Z.eqb_refl; lia|].
+      intros b Hb. eapply same_at_vput; eauto.
 Qed.
 
 (** ** a journaled update of the object at [a] *)
@@ -87,28 +132,31 @@ Proof.
 Qed.
 
 Lemma journaled_set s1 a o e o' :
-  lookup s1 a = Some o ->
+  lookup s1 a = Some o -> dirtied e = Some a ->
   (forall v, veq (vundo (kp s1) e (vput (kp s1) v a o')) (vput (kp s1) v a o)) ->
   veq (V (set_obj (push s1 e) a o')) (vput (kp s1) (V s1) a o') /\ ok s1 (set_obj (push s1 e) a o').
 Proof.
-  intros Hl Hu.
+  intros Hl Hd Hu.
   assert (HV : veq (V (set_obj (push s1 e) a o')) (vput (kp s1) (V s1) a o')).
   { eapply veq_trans; [apply V_set_obj|]. rewrite kp_push. apply vput_veq, V_push. }
   split; [exact HV|]. split; [apply kp_push|].
-  exists [e]. split; [rewrite journal_set_obj, journal_push; reflexivity|].
-  cbn [vunwind fold_left]. eapply veq_trans; [apply vundo_veq, HV|].
-  eapply veq_trans; [apply Hu|]. apply vput_lookup, Hl.
+  exists [e]. split; [rewrite journal_set_obj, journal_push; reflexivity|]. split.
+  - cbn [vunwind fold_left]. eapply veq_trans; [apply vundo_veq, HV|].
+    eapply veq_trans; [apply Hu|]. apply vput_lookup, Hl.
+  - apply (frame_one _ _ _ a); [simpl; rewrite Hd, Z.eqb_refl; lia|].
+    intros b Hb. eapply same_at_vput; eauto.
 Qed.
 
 Lemma mutator s a (E : obj -> entry) (F : obj -> obj) :
+  (forall o, dirtied (E o) = Some a) ->
   (forall v o, veq (vundo (kp s) (E o) (vput (kp s) v a (F o))) (vput (kp s) v a o)) ->
   let s' := (let '(o, s1) := get_or_new s a in set_obj (push s1 (E o)) a (F o)) in
   veq (V s') (vput (kp s) (V s) a (F (obj_or_blank s a))) /\ ok s s'.
 Proof.
-  intros Hu. destruct (get_or_new_spec s a) as (Ho & Hl & HV & Hok).
+  intros Hd Hu. destruct (get_or_new_spec s a) as (Ho & Hl & HV & Hok).
   destruct (get_or_new s a) as [o s1]. simpl in *. subst o.
   destruct Hok as (K & Hok'). 
-  destruct (journaled_set s1 a _ (E (obj_or_blank s a)) (F (obj_or_blank s a)) Hl) as (HV2 & Hok2).
+  destruct (journaled_set s1 a _ (E (obj_or_blank s a)) (F (obj_or_blank s a)) Hl (Hd _)) as (HV2 & Hok2).
   { intro v. rewrite K. apply Hu. }
   split.
   - eapply veq_trans; [exact HV2|]. rewrite K.
@@ -171,7 +219,7 @@ Ltac vcases a0 a :=
 Lemma sim_set_nonce s a n : sim_op (OSetNonce a n) s.
 Proof.
   unfold sim_op. cbn [step_core vstep fst snd]. split; [reflexivity|].
-  destruct (mutator s a (fun o => ENonce a (nonce o)) (fun o => with_nonce o n)) as (HV & Hok).
+  destruct (mutator s a (fun o => ENonce a (nonce o)) (fun o => with_nonce o n)) as (HV & Hok); [reflexivity| |].
   { intros v o. apply (vundo_field (kp s) a _ (fun o => with_nonce o n) (fun x => av_with_nonce x (nonce o)));
       try reflexivity. }
   split; [|exact Hok].
@@ -181,7 +229,7 @@ Qed.
 Lemma sim_set_code s a c : sim_op (OSetCode a c) s.
 Proof.
   unfold sim_op. cbn [step_core vstep fst snd]. split; [reflexivity|].
-  destruct (mutator s a (fun o => ECode a (chash o)) (fun o => with_code o c)) as (HV & Hok).
+  destruct (mutator s a (fun o => ECode a (chash o)) (fun o => with_code o c)) as (HV & Hok); [reflexivity| |].
   { intros v o. apply (vundo_field (kp s) a _ (fun o => with_code o c) (fun x => av_with_code x (chash o)));
       try reflexivity. }
   split; [|exact Hok].
@@ -201,7 +249,7 @@ Proof.
     destruct (get_or_new s a) as [o s1]. simpl in *. subst o. split; [|exact Hok].
     eapply veq_trans; [exact HV|]. rewrite Z.add_0_r, av_with_bal_same.
     apply (vput_field s a (fun o => o) (fun x => x)); reflexivity.
-  - destruct (mutator s a (fun o => EBalance a (bal o)) (fun o => with_bal o (bal o + d))) as (HV & Hok).
+  - destruct (mutator s a (fun o => EBalance a (bal o)) (fun o => with_bal o (bal o + d))) as (HV & Hok); [reflexivity| |].
     { intros v o. apply (vundo_field (kp s) a _ (fun o => with_bal o (bal o + d)) (fun x => av_with_bal x (bal o)));
         try reflexivity. }
     unfold set_balance. split; [|exact Hok].
@@ -339,7 +387,7 @@ Proof.
       split; vcases a0 a. destruct (Z.eqb_spec k0 k); [subst|reflexivity].
       rewrite K. symmetry. apply st_obj_or_blank.
     + eapply ok_trans; [exact Hok|]. apply ok_same; [reflexivity|reflexivity|exact HV2].
-  - destruct (journaled_set s1 a o (EStorage a k (st (kp s1) a o k)) (with_dirty o1 k w) Hl) as (HV2 & Hok2).
+  - destruct (journaled_set s1 a o (EStorage a k (st (kp s1) a o k)) (with_dirty o1 k w) Hl eq_refl) as (HV2 & Hok2).
     { intro v. cbn [vundo vput vset_acct vset_stor vset_comm v_acct v_stor]. rewrite upd_same.
       split; vcases a0 a.
       - change (aview_of (with_dirty o1 k w)) with (aview_of o1). rewrite Ha1. reflexivity.
@@ -361,11 +409,11 @@ Proof.
   destruct (lookup s a) as [o|] eqn:Hl; cbn [fst snd option_map].
   - split; [reflexivity|].
     assert (Hl1 : lookup (snd (get_obj s a)) a = Some o) by (rewrite lookup_loaded; exact Hl).
-    destruct (journaled_set _ a o (ESuicide a (suicided o) (bal o)) (with_bal (with_suicided o true) 0) Hl1)
+    destruct (journaled_set _ a o (ESuicide a (suicided o) (bal o)) (with_bal (with_suicided o true) 0) Hl1 eq_refl)
       as (HV2 & Hok2).
     { intro v. apply (vundo_field _ a _ (fun o => with_bal (with_suicided o true) 0)
-                        (fun x => av_with_bal (av_with_suic x (suicided o)) (bal o))); try reflexivity.
-      destruct o; reflexivity. }
+                        (fun x => av_with_bal (av_with_suic x (suicided o)) (bal o))); try reflexivity;
+        try (destruct o; reflexivity). }
     split; [|eapply ok_trans; [apply ok_loaded|exact Hok2]].
     eapply veq_trans; [exact HV2|]. rewrite kp_loaded.
     eapply veq_trans; [apply vput_veq, V_loaded|].
@@ -395,8 +443,15 @@ Proof.
     + split; [cbn [kp set_obj set_objs]; rewrite kp_push; exact K0|].
       exists [EReset a p]. split.
       { cbn [journal set_obj set_objs]. rewrite journal_push. unfold s0. rewrite journal_loaded. reflexivity. }
-      cbn [vunwind fold_left vundo]. eapply veq_trans; [apply vput_veq, HV|].
-      eapply veq_trans; [apply vput_vput|]. apply vput_lookup, Hl.
+      split.
+      * cbn [vunwind fold_left vundo]. eapply veq_trans; [apply vput_veq, HV|].
+        eapply veq_trans; [apply vput_vput|]. apply vput_lookup, Hl.
+      * (* resetObjectChange is charged to nobody: under the protocol the account looks the same *)
+        intros b _. destruct Hwf as (Hn & Hc & Hsu & Hst).
+        destruct HV as [Ea Es _ _ _ _ _].
+        split; [rewrite Ea|intro k; rewrite Es]; simpl; unfold upd; destruct (Z.eqb_spec b a); subst; try reflexivity.
+        -- rewrite Hl. simpl. destruct p; simpl in *. subst. reflexivity.
+        -- change (st (kp s) a nw k = v_stor (V s) a k). rewrite Hst. unfold st, comm. simpl. apply Hbase.
   - (* no object: createObjectChange *)
     rewrite (get_obj_none s a Hl). cbn [fst snd].
     assert (HV : veq (V (set_obj (push s (ECreate a)) a (new_obj 0 0 0))) (vput (kp s) (V s) a blank_obj)).
@@ -406,5 +461,253 @@ Proof.
       split; vcases a0 a; unfold st, comm; simpl; apply Hbase.
     + split; [cbn [kp set_obj set_objs]; apply kp_push|].
       exists [ECreate a]. split; [cbn [journal set_obj set_objs]; rewrite journal_push; reflexivity|].
-      cbn [vunwind fold_left vundo]. eapply veq_trans; [apply vdrop_veq, HV|]. apply vdrop_vput_none, Hl.
+      split.
+      * cbn [vunwind fold_left vundo]. eapply veq_trans; [apply vdrop_veq, HV|]. apply vdrop_vput_none, Hl.
+      * apply (frame_one _ _ _ a); [simpl; rewrite Z.eqb_refl; lia|].
+        intros b Hb. eapply same_at_vput; eauto.
+Qed.
+
+(** *** refund counter, logs *)
+Lemma V_scalar_push s e : veq (V (push s e)) (V s). Proof. apply V_push. Qed.
+
+Lemma frame_scalar new v v' :
+  (forall a, v_acct v' a = v_acct v a) -> (forall a k, v_stor v' a k = v_stor v a k) -> frame new v v'.
+Proof. intros A B b _. split; auto. Qed.
+
+Lemma sim_add_refund s g : sim_op (OAddRefund g) s.
+Proof.
+  unfold sim_op. cbn [step_core vstep fst snd]. split; [reflexivity|]. unfold add_refund.
+  assert (HV : veq (V (set_refund (push s (ERefund (refund s))) (refund s + g))) (vset_refund (V s) (refund s + g))).
+  { eapply veq_trans; [apply V_set_refund|]. destruct (V_push s (ERefund (refund s))). split; simpl; auto. }
+  split; [exact HV|]. split; [reflexivity|].
+  exists [ERefund (refund s)]. split; [reflexivity|].
+  cbn [vunwind fold_left vundo]. destruct HV. split; [split; simpl in *; auto|apply frame_scalar; auto].
+Qed.
+
+Lemma sim_sub_refund s g : sim_op (OSubRefund g) s.
+Proof.
+  unfold sim_op. cbn [step_core vstep]. unfold sub_refund. simpl v_refund.
+  destruct (refund s <? g); cbn [fst snd].
+  - split; [reflexivity|]. split; [apply V_push|].
+    split; [reflexivity|]. exists [ERefund (refund s)]. split; [reflexivity|].
+    cbn [vunwind fold_left vundo]. destruct (V_push s (ERefund (refund s))).
+    split; [split; simpl in *; auto|apply frame_scalar; auto].
+  - split; [reflexivity|].
+    assert (HV : veq (V (set_refund (push s (ERefund (refund s))) (refund s - g))) (vset_refund (V s) (refund s - g))).
+    { eapply veq_trans; [apply V_set_refund|]. destruct (V_push s (ERefund (refund s))). split; simpl; auto. }
+    split; [exact HV|]. split; [reflexivity|].
+    exists [ERefund (refund s)]. split; [reflexivity|].
+    cbn [vunwind fold_left vundo]. destruct HV. split; [split; simpl in *; auto|apply frame_scalar; auto].
+Qed.
+
+Lemma sim_get_refund s : sim_op OGetRefund s.
+Proof. unfold sim_op. cbn [step_core vstep fst snd]. split; [reflexivity|]. split; [apply veq_refl|apply ok_refl]. Qed.
+
+Lemma sim_add_log s l : sim_op (OAddLog l) s.
+Proof.
+  unfold sim_op. cbn [step_core vstep fst snd]. split; [reflexivity|]. unfold add_log.
+  assert (HV : veq (V (set_logs (push s ELog) (l :: logs s))) (vset_logs (V s) (l :: logs s))).
+  { eapply veq_trans; [apply V_set_logs|]. destruct (V_push s ELog). split; simpl; auto. }
+  split; [exact HV|]. split; [reflexivity|].
+  exists [ELog]. split; [reflexivity|].
+  cbn [vunwind fold_left vundo]. destruct HV.
+  split; [split; simpl in *; auto; try (rewrite eq_logs; reflexivity)|apply frame_scalar; auto].
+Qed.
+
+Lemma sim_logs s : sim_op OLogs s.
+Proof. unfold sim_op. cbn [step_core vstep fst snd]. split; [reflexivity|]. split; [apply veq_refl|apply ok_refl]. Qed.
+
+(** *** access list *)
+Lemma sim_addr_in_al s a : sim_op (OAddrInAL a) s.
+Proof. unfold sim_op. cbn [step_core vstep fst snd]. split; [reflexivity|]. split; [apply veq_refl|apply ok_refl]. Qed.
+Lemma sim_slot_in_al s a k : sim_op (OSlotInAL a k) s.
+Proof. unfold sim_op. cbn [step_core vstep fst snd]. split; [reflexivity|]. split; [apply veq_refl|apply ok_refl]. Qed.
+
+(** state functions that act on the view as [g] and are [ok] *)
+Definition simf (f : sdb -> sdb) (g : view -> view) : Prop :=
+  forall s, veq (V (f s)) (g (V s)) /\ ok s (f s).
+Definition gcong (g : view -> view) : Prop := forall v w, veq v w -> veq (g v) (g w).
+
+Lemma simf_comp f1 g1 f2 g2 : simf f1 g1 -> simf f2 g2 -> gcong g2 -> simf (fun s => f2 (f1 s)) (fun v => g2 (g1 v)).
+Proof.
+  intros H1 H2 C s. destruct (H1 s) as (A1 & B1). destruct (H2 (f1 s)) as (A2 & B2).
+  split; [|eapply ok_trans; eauto]. eapply veq_trans; [exact A2|]. apply C, A1.
+Qed.
+
+Lemma simf_fold {X} (f : sdb -> X -> sdb) (g : view -> X -> view) :
+  (forall x, simf (fun s => f s x) (fun v => g v x)) -> (forall x, gcong (fun v => g v x)) ->
+  forall l, simf (fun s => fold_left f l s) (fun v => fold_left g l v) /\ gcong (fun v => fold_left g l v).
+Proof.
+  intros Hf Hc. induction l as [|x l [IH IC]]; simpl.
+  - split; [intro s; split; [apply veq_refl|apply ok_refl]|intros v w H; exact H].
+  - split.
+    + apply (simf_comp (fun s => f s x) (fun v => g v x) (fun s => fold_left f l s) (fun v => fold_left g l v)); auto.
+    + intros v w H. apply IC, Hc, H.
+Qed.
+
+Lemma vadd_addr_cong a : gcong (fun v => vadd_addr v a).
+Proof. intros v w []. split; simpl; intros; unfold upd; try destruct (_ =? _); auto. Qed.
+Lemma vadd_slot_cong a k : gcong (fun v => vadd_slot v a k).
+Proof.
+  intros v w []. split; simpl; intros; unfold upd; auto.
+  - destruct (_ =? _); auto.
+  - destruct (a0 =? a); auto. destruct (k0 =? k); auto.
+Qed.
+
+Lemma simf_add_addr a : simf (fun s => add_addr_al s a) (fun v => vadd_addr v a).
+Proof.
+  intro s. unfold add_addr_al. destruct (al_addr s a) eqn:Ha.
+  - split; [|apply ok_refl].
+    split; simpl; intros; try reflexivity. unfold upd. destruct (Z.eqb_spec a0 a); subst; auto.
+  - set (s1 := set_al s (upd (al_addr s) a true) (upd (al_slot s) a (fun _ => false))).
+    assert (HV : veq (V (push s1 (EAlAddr a))) (vadd_addr (V s) a)).
+    { eapply veq_trans; [apply V_push|]. eapply veq_trans; [apply V_set_al|].
+      split; simpl; intros; try reflexivity. unfold upd.
+      destruct (Z.eqb_spec a0 a); subst; auto. rewrite Ha. reflexivity. }
+    split; [exact HV|]. split; [reflexivity|].
+    exists [EAlAddr a]. split; [reflexivity|]. split; [|destruct HV; apply frame_scalar; auto].
+    cbn [vunwind fold_left vundo]. eapply veq_trans; [apply (vundo_veq (kp s) (EAlAddr a)), HV|].
+    split; simpl; intros; try reflexivity; unfold upd; destruct (Z.eqb_spec a0 a); subst; auto.
+    rewrite Ha. reflexivity.
+Qed.
+
+Lemma simf_add_slot a k : simf (fun s => add_slot_al s a k) (fun v => vadd_slot v a k).
+Proof.
+  intro s. unfold add_slot_al, slot_present.
+  set (slots_a := if al_addr s a then al_slot s a else fun _ => false).
+  set (s1 := set_al s (upd (al_addr s) a true) (upd (al_slot s) a (upd slots_a k true))).
+  assert (HV1 : veq (V s1) (vadd_slot (V s) a k)).
+  { eapply veq_trans; [apply V_set_al|].
+    split; simpl; intros; try reflexivity. unfold upd, slots_a.
+    destruct (Z.eqb_spec a0 a); subst; auto. destruct (k0 =? k); auto. destruct (al_addr s a); reflexivity. }
+  destruct (al_addr s a) eqn:Ha; cbn [negb andb].
+  - destruct (al_slot s a k) eqn:Hs; cbn [negb].
+    + split; [exact HV1|]. apply ok_same; [reflexivity|reflexivity|].
+      eapply veq_trans; [exact HV1|].
+      split; simpl; intros; try reflexivity; unfold upd; destruct (Z.eqb_spec a0 a); subst; auto.
+      destruct (Z.eqb_spec k0 k); subst; auto. rewrite Ha, Hs. reflexivity.
+    + assert (HV : veq (V (push s1 (EAlSlot a k))) (vadd_slot (V s) a k))
+        by (eapply veq_trans; [apply V_push|exact HV1]).
+      split; [exact HV|]. split; [reflexivity|].
+      exists [EAlSlot a k]. split; [reflexivity|]. split; [|destruct HV; apply frame_scalar; auto].
+      cbn [vunwind fold_left]. eapply veq_trans; [apply (vundo_veq (kp s) (EAlSlot a k)), HV|].
+      split; simpl; intros; try reflexivity; unfold upd; destruct (Z.eqb_spec a0 a); subst; auto.
+      rewrite Z.eqb_refl. destruct (Z.eqb_spec k0 k); subst; auto. rewrite Ha, Hs. reflexivity.
+  - assert (HV : veq (V (push (push s1 (EAlAddr a)) (EAlSlot a k))) (vadd_slot (V s) a k)).
+    { eapply veq_trans; [apply V_push|]. eapply veq_trans; [apply V_push|exact HV1]. }
+    split; [exact HV|]. split; [reflexivity|].
+    exists [EAlSlot a k; EAlAddr a]. split; [reflexivity|]. split; [|destruct HV; apply frame_scalar; auto].
+    cbn [vunwind fold_left].
+    eapply veq_trans; [apply (vundo_veq (kp s) (EAlAddr a)), (vundo_veq (kp s) (EAlSlot a k)), HV|].
+    split; simpl; intros; try reflexivity; unfold upd; destruct (Z.eqb_spec a0 a); subst; auto.
+    rewrite Ha. reflexivity.
+Qed.
+
+Lemma sim_add_addr_al s a : sim_op (OAddAddrAL a) s.
+Proof. unfold sim_op. cbn [step_core vstep fst snd]. split; [reflexivity|]. apply simf_add_addr. Qed.
+Lemma sim_add_slot_al s a k : sim_op (OAddSlotAL a k) s.
+Proof. unfold sim_op. cbn [step_core vstep fst snd]. split; [reflexivity|]. apply simf_add_slot. Qed.
+
+(** *** PrepareAccessList *)
+Lemma simf_prepare sd dst pre al :
+  simf (fun s => prepare_al s sd dst pre al) (fun v => vprepare v sd dst pre al).
+Proof.
+  unfold prepare_al, vprepare.
+  (* inner: one access tuple *)
+  assert (Htuple : forall el : addr * list key,
+            simf (fun s => fold_left (fun s k => add_slot_al s (fst el) k) (snd el) (add_addr_al s (fst el)))
+                 (fun v => fold_left (fun v k => vadd_slot v (fst el) k) (snd el) (vadd_addr v (fst el))) /\
+            gcong (fun v => fold_left (fun v k => vadd_slot v (fst el) k) (snd el) (vadd_addr v (fst el)))).
+  { intro el.
+    destruct (simf_fold (fun s k => add_slot_al s (fst el) k) (fun v k => vadd_slot v (fst el) k)
+                        (fun k => simf_add_slot (fst el) k) (fun k => vadd_slot_cong (fst el) k) (snd el)) as [F C].
+    split.
+    - apply (simf_comp (fun s => add_addr_al s (fst el)) (fun v => vadd_addr v (fst el)) _ _ (simf_add_addr (fst el)) F C).
+    - intros v w H. apply C, vadd_addr_cong, H. }
+  destruct (simf_fold (fun s el => fold_left (fun s k => add_slot_al s (fst el) k) (snd el) (add_addr_al s (fst el)))
+                      (fun v el => fold_left (fun v k => vadd_slot v (fst el) k) (snd el) (vadd_addr v (fst el)))
+                      (fun el => proj1 (Htuple el)) (fun el => proj2 (Htuple el)) al) as [Fal Cal].
+  destruct (simf_fold add_addr_al vadd_addr simf_add_addr vadd_addr_cong pre) as [Fpre Cpre].
+  assert (Fdst : simf (fun s => match dst with Some d => add_addr_al s d | None => s end)
+                      (fun v => match dst with Some d => vadd_addr v d | None => v end) /\
+                 gcong (fun v => match dst with Some d => vadd_addr v d | None => v end)).
+  { destruct dst as [d|]; split; try apply simf_add_addr; try apply vadd_addr_cong.
+    - intro s; split; [apply veq_refl|apply ok_refl].
+    - intros v w H; exact H. }
+  destruct Fdst as [Fdst Cdst].
+  pose proof (simf_comp _ _ _ _ (simf_add_addr sd) Fdst Cdst) as S2.
+  pose proof (simf_comp _ _ _ _ S2 Fpre Cpre) as S3.
+  pose proof (simf_comp _ _ _ _ S3 Fal Cal) as S4.
+  intro s. specialize (S4 s). destruct dst; exact S4.
+Qed.
+
+Lemma sim_prepare s sd dst pre al : sim_op (OPrepareAL sd dst pre al) s.
+Proof. unfold sim_op. cbn [step_core vstep fst snd]. split; [reflexivity|]. apply simf_prepare. Qed.
+
+Lemma vprepare_cong sd dst pre al : gcong (fun v => vprepare v sd dst pre al).
+Proof.
+  unfold vprepare. intros v w H.
+  assert (Ctuple : forall el : addr * list key,
+            gcong (fun v => fold_left (fun v k => vadd_slot v (fst el) k) (snd el) (vadd_addr v (fst el)))).
+  { intros el v1 w1 H1.
+    apply (proj2 (simf_fold (fun s k => add_slot_al s (fst el) k) (fun v k => vadd_slot v (fst el) k)
+                        (fun k => simf_add_slot (fst el) k) (fun k => vadd_slot_cong (fst el) k) (snd el))).
+    apply vadd_addr_cong, H1. }
+  assert (Cal : gcong (fun v => fold_left (fun v el => fold_left (fun v k => vadd_slot v (fst el) k) (snd el) (vadd_addr v (fst el))) al v)).
+  { clear v w H. induction al as [|el al IH]; intros v w H; simpl; [exact H|]. apply IH, Ctuple, H. }
+  assert (Cpre : gcong (fun v => fold_left vadd_addr pre v)).
+  { clear v w H. induction pre as [|x pre IH]; intros v w H; simpl; [exact H|]. apply IH, vadd_addr_cong, H. }
+  apply Cal, Cpre. destruct dst; [apply vadd_addr_cong|]; apply vadd_addr_cong, H.
+Qed.
+
+(** ** every method except Snapshot / RevertToSnapshot *)
+Definition wf_core (s : sdb) (o : op) : Prop :=
+  match o with OCreateAccount a => wf_create (k_stor (kp s)) (V s) a | _ => True end.
+
+Theorem sim_step_core o s : wf_core s o -> sim_op o s.
+Proof.
+  intro Hwf. destruct o; cbn [wf_core] in Hwf.
+  - apply sim_create, Hwf.
+  - apply sim_sub_balance.
+  - apply sim_add_balance.
+  - apply sim_get_balance.
+  - apply sim_get_nonce.
+  - apply sim_set_nonce.
+  - apply sim_get_code_hash.
+  - apply sim_get_code.
+  - apply sim_set_code.
+  - apply sim_get_code_size.
+  - apply sim_add_refund.
+  - apply sim_sub_refund.
+  - apply sim_get_refund.
+  - apply sim_get_committed.
+  - apply sim_get_state.
+  - apply sim_set_state.
+  - apply sim_suicide.
+  - apply sim_has_suicided.
+  - apply sim_exist.
+  - apply sim_empty.
+  - apply sim_addr_in_al.
+  - apply sim_slot_in_al.
+  - apply sim_add_addr_al.
+  - apply sim_add_slot_al.
+  - apply sim_prepare.
+  - unfold sim_op. cbn [step_core vstep fst snd]. split; [reflexivity|]. split; [apply veq_refl|apply ok_refl].
+  - unfold sim_op. cbn [step_core vstep fst snd]. split; [reflexivity|]. split; [apply veq_refl|apply ok_refl].
+  - apply sim_add_log.
+  - apply sim_logs.
+Qed.
+
+(** ** the reference operations respect pointwise equality of views *)
+Lemma vstep_cong o v w : veq v w -> snd (vstep o v) = snd (vstep o w) /\ veq (fst (vstep o v)) (fst (vstep o w)).
+Proof.
+  intro H. pose proof H as [Ea Es Ec Er El Eaa Eas].
+  destruct o; cbn [vstep]; unfold vget_or_new;
+    try rewrite (Ea a); try rewrite Er; try rewrite El; try rewrite (Eaa a); try rewrite (Eas a k);
+    try rewrite (Es a k); try rewrite (Ec a k);
+    try (destruct (v_acct w a); cbn [fst snd]);
+    try (destruct (v_refund w <? g); cbn [fst snd]);
+    try (split; [reflexivity|]); try exact H;
+    try (split; simpl; intros; unfold upd; repeat destruct (_ =? _); auto; fail).
+  - apply vprepare_cong, H.
 Qed.
